@@ -256,6 +256,11 @@ func Run(src io.Reader, o Opts) (obs Obs) {
 				for got, empty := 0, 0; got < j; {
 					n, err := rd.Read(p[got:])
 					got += n
+					if err != nil && o.Retry && isTimeout(err) && retries < 16 {
+						retries++
+						obs.Retried++
+						continue
+					}
 					if err == io.EOF {
 						break // message shorter than j: Discard below is a no-op
 					}
@@ -270,7 +275,14 @@ func Run(src io.Reader, o Opts) (obs Obs) {
 						return
 					}
 				}
-				if err := rd.Discard(); err != nil {
+				err := rd.Discard()
+				for err != nil && o.Retry && isTimeout(err) && retries < 16 {
+					// (a deadline expired while the message was being skipped: the application calls Discard again)
+					retries++
+					obs.Retried++
+					err = rd.Discard()
+				}
+				if err != nil {
 					obs.Err = err
 					return
 				}
